@@ -161,6 +161,42 @@ theorem answer_is_invisible : ∀ (ss : List Step) (c : CHandler),
       simp only [List.filter_cons, if_true, CHandler.run]
       rw [answer_is_invisible ss]
 
+/-- **racing_finishes_serve_the_last**: two attempts that have both exchanged their code and race for the
+last statement (`h.tokenSource = ts` under `mu`) — whichever order the two installations take, the handler then
+serves the source of the one that installed LAST if it installed, else that of the other if it installed, else
+what it served before: always one whole source of one attempt (each justified by `concurrent_served_token_justified`),
+never a mix. -/
+theorem racing_finishes_serve_the_last (c : CHandler) (j k : Nat) (a b : Attempt) (hjk : j ≠ k)
+    (ha : c.flight.lookup j = some a) (hb : c.flight.lookup k = some b) :
+    (c.run [.finish j, .finish k]).2 = [(j, attemptResult c.cfg j a), (k, attemptResult c.cfg k b)] ∧
+    (c.run [.finish j, .finish k]).1.served =
+      if (attemptResult c.cfg k b).installed then .round k
+      else if (attemptResult c.cfg j a).installed then .round j else c.served := by
+  have hb' : (c.flight.filter fun p => p.1 != j).lookup k = some b := by
+    have : ∀ (l : List (Nat × Attempt)), l.lookup k = some b → (l.filter fun p => p.1 != j).lookup k = some b := by
+      intro l
+      induction l with
+      | nil => intro h; cases h
+      | cons p t ih =>
+        obtain ⟨x, v⟩ := p
+        intro h
+        by_cases hx : x = j
+        · subst hx
+          have hkx : (k == x) = false := by simpa using Ne.symm hjk
+          simp only [List.lookup_cons, hkx] at h
+          simp [List.filter_cons, ih h]
+        · have : (x != j) = true := by simpa using hx
+          simp only [List.filter_cons, this, if_true, List.lookup_cons]
+          simp only [List.lookup_cons] at h
+          split
+          · rename_i he; simp only [he] at h; exact h
+          · rename_i he; simp only [he] at h; exact ih h
+    exact this _ hb
+  simp only [CHandler.run, CHandler.step, ha, hb']
+  constructor
+  · trivial
+  · cases h1 : (attemptResult c.cfg k b).installed <;> cases h2 : (attemptResult c.cfg j a).installed <;> simp
+
 /-- **concurrent_failed_attempt_keeps_token_source**: a `finish` step whose attempt installs nothing
 (any failed check) leaves the token source served unchanged; one that installs serves ITS source. -/
 theorem concurrent_failed_attempt_keeps_token_source (c : CHandler) (k : Nat) (R : Result)
